@@ -198,7 +198,8 @@ def build_pair(case):
             hit = False
             for cel in deck.cells:
                 if cel.fill is not None and cel.fill.tr is not None and \
-                        cel.fill.tr.starred and len(cel.fill.tr.entries) == 9:
+                        cel.fill.tr.starred and \
+                        len(cel.fill.tr.entries or ()) == 9:
                     cel.fill.tr.entries = list(cel.fill.tr.entries) + [1]
                     hit = True
             if not hit:
@@ -206,7 +207,7 @@ def build_pair(case):
             bad = copy.deepcopy(deck)
             for cel in bad.cells:
                 if cel.fill is not None and cel.fill.tr is not None and \
-                        len(cel.fill.tr.entries) == 10:
+                        len(cel.fill.tr.entries or ()) == 10:
                     cel.fill.tr.entries[-1] = -1
                     break
             return deck, bad, 'inline *FILL transformation m=-1'
